@@ -10,8 +10,8 @@ PATCH=_seed/patch.diff
 [ -f $PATCH ] || { echo "no patch"; exit 2; }
 MOD=$(grep '^+++ b/' $PATCH | head -1 | sed 's#+++ b/##; s#/.*##')
 DEMO=$(ls _seed/*_test.go | head -1)
-DEMOPKG=$(dirname $(grep -l "" $(git status --porcelain | grep '_test.go' | awk '{print $2}') | head -1) 2>/dev/null)
-[ -z "$DEMOPKG" ] && DEMOPKG=$MOD
+# the demonstration lives in the package of the (first) changed file
+DEMOPKG=$(dirname $(grep '^+++ b/' $PATCH | head -1 | sed 's#+++ b/##'))
 DEMONAME=$(grep -o 'func Test[A-Za-z0-9_]*' $DEMO | head -1 | sed 's/func //')
 # make sure the worktree is exactly HEAD + patch + demo
 git checkout -q -- . ; git apply $PATCH || { echo "patch does not apply"; exit 2; }
